@@ -46,7 +46,7 @@ def check(run):
         return parts if len(parts) > 1 else [1, m - 1]
     max_iters = (1, 2, 3, 5, 8, 13, 30) if thorough else (1, 2, 3, 4, 6)
     tols = ('0', '1e-12', '1e-8', '1e-4', '1e-2', '1e-1', 'stop:1', 'stop:2', 'stop:3', 'stop:5') if thorough else ('0', '1e-12', '1e-4', '1e-1', 'stop:1', 'stop:2', 'stop:3')
-    behaviours = scenario.generate(run, TEMPLATES + (['se2huge'] if thorough else []), run.seed, 600 if thorough else 90, 16, max_iters=max_iters, tols=tols, workers=8)
+    behaviours = scenario.generate(run, TEMPLATES + (['se2huge'] if thorough else []), run.seed, 600 if thorough else 90, 16, max_iters=max_iters, tols=tols, workers=8, edits=True)
     # hand-written behaviours guarantee every class of the vacuity guard whatever the seed: early stops, runs ending at max_iter,
     # diverging steps, split comparisons
     def opt(m, tol, vb=False, ff=True):
@@ -85,7 +85,7 @@ def check(run):
     if stats['early_stop'] == 0 or stats['max_iter_reached'] == 0 or stats['diverging_step'] == 0 or stats['splits_compared'] == 0:
         raise RuntimeError('vacuity guard: %r' % stats)
     for sid, seq, clause in rejects:
-        if clause not in ('opt-report', 'opt-split', 'opt-verbose') + ('opt-raised',):
+        if clause not in ('opt-report', 'opt-split', 'opt-verbose', 'opt-fresh') + ('opt-raised',):
             continue
         ev = byid[(sid, seq)]
         s = sessions[sid]
@@ -101,7 +101,7 @@ def check(run):
                 'ReportCorrect, Termination, splitting theorem for every composition); (ii) optimizer calls along TLC-generated scenarios on converging, '
                 'diverging and NaN runs, tol literal or placed just above the k-th relative decrease; the stop classes are computed with the documented '
                 'formula from chi^2 values observed independently (single-iteration calls on a deep copy) and Trace_GraphSLAM demands report = Outcome, '
-                'bitwise equal poses for verbose on/off and for split runs; non-trivial = optimizer call with max_iter > 1 or an early stop')
+                'bitwise equal poses for verbose on/off, for split runs and for the same call on a graph rebuilt from the current numbers (no hidden state; the scenarios contain user pose / measurement edits between calls); non-trivial = optimizer call with max_iter > 1 or an early stop')
     run.assumptions = ['the independent chi^2 sequence is observed through calc_chi2() between single-iteration calls on a deep copy of the graph',
                        'stop classes within 1e-9 relative of tol are ambiguous (either outcome accepted); none is expected on an unchanged tree']
 
